@@ -133,6 +133,15 @@ func (encoding *Encoding) Validate(ctx context.Context, opts ...ValidationOption
 		}
 	}
 
+	return encoding.validateOwnFields(ctx)
+}
+
+// validateOwnFields checks the fields of the encoding itself, without descending into its headers.
+func (encoding *Encoding) validateOwnFields(ctx context.Context) error {
+	if encoding == nil {
+		return nil
+	}
+
 	// Validate a media types's serialization method.
 	sm := encoding.SerializationMethod()
 	switch {
